@@ -12,12 +12,17 @@ A case:
      "create_arrays": true,                 # add the create-arrays/arrays housekeeping nodes like Plan._create_lazy_zarr_arrays
      "durations": {"op-000:1": 5.0, ...},   # virtual duration of the original submission (default 1.0)
      "backup_durations": {"op-000:1": 1.0}, # duration of a backup submission (default 1.0)
-     "fails": {"op-000:1": 1},              # leading failing attempts of the original submission (<= retries => run must succeed)
+     "fails": {"op-000:1": 1},              # leading failing attempts of the original submission (retries+1 = it exhausts its retries)
+     "backup_fails": {"op-000:1": 3},       # same for the backup submission of that task
      "parallel": bool, "batch_size": None | int, "use_backups": bool, "retries": 0..2, "order": "of"|"bf"|"rof"|"rbf"|"native", "hperm": 0..5 (iteration order of cubed's sets of futures)}
 
+A run may legitimately raise the task's error only when the task whose error is raised has no submission (made so far,
+completed or still pending) that is scripted to succeed; such a run is labelled and not judged for ordering. Any other
+raise is a violation (a failure surfaced although a twin succeeds / would succeed).
+
 Oracle (sequence-based, so ties in virtual time cannot blur it): for every op X with a pipeline and every DAG ancestor op
-Y with a pipeline (not marked computed), every submission of a task of X happens after the first successful completion
-of every task of Y; create-arrays completes before any other submission; the run ends without exception / hang; every
+Y with a pipeline (not marked computed), every submission of a task of X happens after the first SUCCESSFUL completion
+of every task of Y (a failed original whose backup is still running has not produced its data); create-arrays completes before any other submission; the run ends without exception / hang; every
 task of every op with a pipeline is submitted (exactly once without backups, at most twice with) and reported by exactly
 one task-end callback; ops without a pipeline or marked computed are never submitted.
 """
@@ -113,6 +118,7 @@ def run_dag(case):
     durations = case.get("durations", {})
     bdur = case.get("backup_durations", {})
     failsmap = case.get("fails", {})
+    bfailsmap = case.get("backup_fails", {})
     retries = case.get("retries", 2)
     use_backups = case.get("use_backups", False)
 
@@ -136,7 +142,7 @@ def run_dag(case):
         sub = pool.current
         sub.attempts += 1
         op, i = sub.key
-        nf = failsmap.get(f"{op}:{i}", 0) if sub.subno == 0 else 0
+        nf = failsmap.get(f"{op}:{i}", 0) if sub.subno == 0 else bfailsmap.get(f"{op}:{i}", 0)
         if sub.attempts <= nf:
             raise DagTaskError(op, i, sub.attempts)
         return None
@@ -187,10 +193,30 @@ def run_dag(case):
     fails = []
     labels = {f"dag:parallel={int(bool(case.get('parallel')))}", f"dag:batch={case.get('batch_size')}", f"dag:backups={int(use_backups)}",
               "dag:outcome=" + outcome}
+    def scripted_ok(sub):
+        op_, i_ = sub.key
+        m = failsmap if sub.subno == 0 else bfailsmap
+        return m.get(f"{op_}:{i_}", 0) <= retries
+
+    legit_raise = False
     if outcome == "hang":
         fails.append(Failure("dag:hang", str(exc)))
     elif outcome == "crash":
-        fails.append(Failure(f"dag:crash:{type(exc).__name__}", f"{type(exc).__name__}: {str(exc)[:200]}"))
+        if isinstance(exc, DagTaskError) and len(exc.args) >= 2:
+            subs_of = pool.by_key.get((exc.args[0], exc.args[1]), [])
+            good = [sb for sb in subs_of if scripted_ok(sb)]
+            if subs_of and not good:
+                legit_raise = True
+                outcome = "legit-raise"
+                labels.discard("dag:outcome=crash")
+                labels.add("dag:outcome=legit-raise(not judged for ordering)")
+            else:
+                sb = good[0] if good else None
+                state = "n/a" if sb is None else ("completed" if sb.fired else "still pending")
+                fails.append(Failure("dag:raised-although-a-submission-succeeds",
+                                     f"raised {exc!r} although submission {getattr(sb, 'subno', '?')} of that task is scripted to succeed ({state})"))
+        else:
+            fails.append(Failure(f"dag:crash:{type(exc).__name__}", f"{type(exc).__name__}: {str(exc)[:200]}"))
 
     # causal sequence of events
     first_done = {}  # (op, i) -> seq index of first successful completion
@@ -240,7 +266,7 @@ def run_dag(case):
             anc[name] = {a for a in nx.ancestors(dag, name) if a in live}
     viol = None
     for (op, i), lst in submits.items():
-        if op not in live:
+        if op not in live or legit_raise:
             continue
         start = min(lst)
         for a in anc.get(op, ()):
@@ -268,6 +294,15 @@ def run_dag(case):
     gens_unequal = len({ntasks[o] for o in live if o != "create-arrays"}) >= 2
     if any(len(v) > 1 for v in submits.values()):
         labels.add("dag:backup-launched")
+    fire_pos = {sub.seq: idx for idx, (kind, sub, t) in enumerate(pool.events) if kind == "fire"}
+    for key, subs_ in pool.by_key.items():
+        if len(subs_) >= 2:
+            o, b = subs_[0], subs_[1]
+            po, pb = fire_pos.get(o.seq), fire_pos.get(b.seq)
+            if o.fired and not o.ok and (pb is None or pb > po):
+                labels.add("dag:orig-exhausted-while-backup-running" + ("" if scripted_ok(b) else "(backup fails too)"))
+            if b.fired and not b.ok and (po is None or po > pb):
+                labels.add("dag:backup-exhausted-while-orig-running" + ("" if scripted_ok(o) else "(orig fails too)"))
     if multi_producer:
         labels.add("dag:op-with>=2-producers")
     info = {"nontrivial": bool(nlive >= 2 and (multi_producer or gens_unequal)), "events": len(pool.events), "t_end": loop.time()}
@@ -290,13 +325,20 @@ def dag_cases(max_ops=8):
     @st.composite
     def gen(draw):
         nops = draw(st.integers(1, max_ops))
-        use_backups = draw(st.sampled_from([False, False, True]))
+        use_backups = draw(st.sampled_from([False, True]))
+        # "twins": a straggler in an op with >= 10 tasks whose original or backup exhausts its retries while the twin is
+        # still running, followed by a dependent op
+        twins = use_backups and draw(st.integers(0, 2)) != 0
+        if twins:
+            nops = max(nops, 2)
+            big_at = draw(st.integers(0, min(nops - 2, 2)))
         ops = []
         # node names are not in topological order (a scheduler must not rely on name or insertion order)
         perm = draw(st.permutations(list(range(nops)))) if draw(st.booleans()) else list(range(nops))
         for k in range(nops):
             name = f"op-{perm[k]:03d}"
-            big = use_backups and draw(st.integers(0, 2)) == 0
+            forced_big = twins and k == big_at
+            big = forced_big or (use_backups and draw(st.integers(0, 2)) == 0)
             ntasks = draw(st.integers(10, 14)) if big else draw(st.integers(1, 6))
             nout = draw(st.sampled_from([1, 1, 1, 2]))
             preds = []
@@ -305,21 +347,39 @@ def dag_cases(max_ops=8):
                 for _ in range(npred):
                     p = draw(st.sampled_from(ops))
                     preds.append([p["name"], draw(st.integers(0, p["nout"] - 1))])
+            if twins and k == big_at + 1 and not any(p == ops[big_at]["name"] for p, _ in preds):
+                preds.append([ops[big_at]["name"], 0])  # the dependent op
             op = {"name": name, "ntasks": ntasks, "nout": nout, "preds": preds,
-                  "pipeline": draw(st.integers(0, 9)) != 0}
-            if op["pipeline"] and draw(st.integers(0, 14)) == 0:
+                  "pipeline": True if (forced_big or (twins and k == big_at + 1)) else draw(st.integers(0, 9)) != 0}
+            if op["pipeline"] and not forced_big and draw(st.integers(0, 14)) == 0:
                 op["computed"] = True
             if draw(st.integers(0, 3)) == 0:
                 op["iter"] = True
             ops.append(op)
-        durs, bd, fl = {}, {}, {}
+        durs, bd, fl, bfl = {}, {}, {}, {}
         retries = draw(st.sampled_from([0, 1, 2]))
-        style = draw(st.sampled_from(["unit", "small", "small", "stragglers"]))
+        style = "unit" if twins and draw(st.booleans()) else draw(st.sampled_from(["unit", "small", "small", "stragglers"]))
+        if twins:
+            bop = ops[big_at]
+            for i in draw(st.lists(st.integers(0, bop["ntasks"] - 1), min_size=1, max_size=2, unique=True)):
+                key = f"{bop['name']}:{i}"
+                durs[key] = draw(st.sampled_from([8.0, 8.0, 12.0, 20.0]))
+                bd[key] = draw(st.sampled_from([1.0, 6.0, 10.0, 10.0, 30.0]))
+                sc = draw(st.sampled_from(["orig-exhausts", "orig-exhausts", "orig-exhausts", "backup-exhausts", "backup-exhausts", "both-exhaust", "retry-ok"]))
+                if sc in ("orig-exhausts", "both-exhaust"):
+                    fl[key] = retries + 1
+                if sc in ("backup-exhausts", "both-exhaust"):
+                    bfl[key] = retries + 1
+                if sc == "retry-ok" and retries:
+                    fl[key] = retries
+                    bfl[key] = draw(st.integers(0, retries))
         for op in ops:
             if not op["pipeline"]:
                 continue
             for i in range(op["ntasks"]):
                 key = f"{op['name']}:{i}"
+                if key in durs and twins and op is ops[big_at]:
+                    continue
                 if style == "small":
                     d = draw(st.sampled_from([0.0, 1.0, 1.0, 2.0, 3.0]))
                     if d != 1.0:
@@ -332,8 +392,9 @@ def dag_cases(max_ops=8):
                     fl[key] = draw(st.integers(1, retries))
         mx = max(op["ntasks"] for op in ops)
         case = {"kind": "dag", "ops": ops, "create_arrays": draw(st.sampled_from([True, True, True, False])),
-                "durations": durs, "backup_durations": bd, "fails": fl,
-                "parallel": draw(st.sampled_from([True, True, False])), "batch_size": draw(st.sampled_from([None, None, 1, 2, 10, mx, mx + 3])),
+                "durations": durs, "backup_durations": bd, "fails": fl, "backup_fails": bfl,
+                "parallel": draw(st.sampled_from([True, True, False])),
+                "batch_size": draw(st.sampled_from([None, None, None, 10, mx, mx + 3] if twins else [None, None, 1, 2, 10, mx, mx + 3])),
                 "use_backups": use_backups, "retries": retries, "order": draw(st.sampled_from(["of", "bf", "rof", "rbf", "native"])), "hperm": draw(st.integers(0, 5))}
         return case
 
